@@ -674,7 +674,7 @@ bool qhasharr_remove_by_idx(qhasharr_t *tbl, int idx) {
  *  Q_HASHARR_NAMESIZE.
  */
 bool qhasharr_getnext(qhasharr_t *tbl, qhasharr_obj_t *obj, int *idx) {
-    if (tbl == NULL || obj == NULL || idx == NULL) {
+    if (tbl == NULL || obj == NULL || idx == NULL || *idx < 0) {
         errno = EINVAL;
         return NULL;
     }
